@@ -1,4 +1,5 @@
 import Pycoin.Proofs.MerkleBlock
+import Pycoin.Proofs.Block
 import Pycoin.Model.Sha256
 /-!
 C14 — Blocks round-trip, ids and merkle roots follow the Bitcoin definition.
@@ -230,6 +231,98 @@ theorem dsha256_length (x : Bytes) : (Pycoin.Hash.dsha256 x).length = 32 := by
   simp [Pycoin.Hash.dsha256, Pycoin.Hash.sha256, Pycoin.Hash.u32be]
 
 
+/-! ## headers and blocks (part 2) -/
+
+section blocks
+open Pycoin.Wire Pycoin.Msg
+
+/-- C14.header_rt: a header in range streams to exactly the 80 bytes of the wire format, and parsing those bytes
+(followed by anything) gives the header back and leaves what followed -/
+theorem C14_header_rt (h : Header) (hwf : h.WF) (rest : Bytes) :
+    Block.streamHeader h = .ok (Spec.Block.header h) ∧ (Spec.Block.header h).length = 80 ∧
+    Block.parseAsHeader (Spec.Block.header h ++ rest) = .ok (h, rest) :=
+  ⟨Block.streamHeader_eq h hwf, Spec.Block.header_length h hwf.prev hwf.root,
+   Block.header_law h _ rest ⟨hwf.prev, hwf.root⟩ (Block.streamHeader_eq h hwf)⟩
+
+/-- the byte direction: any 80 bytes (followed by anything) parse as a header that streams back to those 80 bytes -/
+theorem C14_header_bytes_rt (data : Bytes) (hlen : 80 ≤ data.length) :
+    ∃ h : Header, Block.parseAsHeader data = .ok (h, data.drop 80) ∧ Block.streamHeader h = .ok (data.take 80) :=
+  Block.parseAsHeader_of_80 data hlen
+
+/-- C14.block_id_def: `hash()` is the double SHA-256 of the 80-byte header and `id()` its reversed hex — for a header
+object in range, and for the header parsed from any bytes (the digest of the first 80 bytes read) -/
+theorem C14_block_id_def :
+    (∀ h : Header, h.WF → Block.hash h = .ok (Spec.Block.blockHash h) ∧
+      Block.id h = .ok (Tx.b2hRev (Spec.Block.blockHash h))) ∧
+    (∀ data : Bytes, 80 ≤ data.length → ∃ h : Header, Block.parseAsHeader data = .ok (h, data.drop 80) ∧
+      Block.hash h = .ok (Pycoin.Hash.dsha256 (data.take 80))) := by
+  constructor
+  · intro h hwf
+    simp [Block.hash, Block.id, Block.streamHeader_eq h hwf, Except.map, Spec.Block.blockHash]
+  · intro data hlen
+    obtain ⟨h, h1, h2⟩ := Block.parseAsHeader_of_80 data hlen
+    exact ⟨h, h1, by simp [Block.hash, h2, Except.map]⟩
+
+/-- the transaction hashes a block's merkle tree is built over (`tx.hash()`: legacy serialisation, the coin's digest) -/
+def txids (c : Coin) (txs : List Tx) : List Bytes := txs.map (fun t => Tx.idDigest c (Spec.Wire.legacy t))
+
+theorem txHashes_eq (c : Coin) : ∀ (txs : List Tx), (∀ t ∈ txs, t.WF) → Block.txHashes c txs = .ok (txids c txs)
+  | [], _ => rfl
+  | t :: ts, h => by
+    simp [Block.txHashes, (C07_txid_def c t (h t (by simp))).1, txHashes_eq c ts (fun x hx => h x (by simp [hx])), txids]
+
+/-- the merkle root the Bitcoin definition assigns to the block's transactions -/
+def specRoot (c : Coin) (txs : List Tx) : Bytes :=
+  root Pycoin.Hash.dsha256 (fun i => (txids c txs)[i]?.getD []) txs.length
+
+/-- `check_merkle_hash` compares the header field with the recursive Bitcoin definition over the txids -/
+theorem checkMerkleHash_eq (c : Coin) (blk : Block) (hwf : blk.WF) :
+    Block.checkMerkleHash c blk.hdr blk.txs =
+      if specRoot c blk.txs ≠ blk.hdr.merkleRoot then .error .badMerkleRootError else .ok () := by
+  have hne : txids c blk.txs ≠ [] := by
+    intro h
+    have h1 := congrArg List.length h
+    have h2 := hwf.nonempty
+    simp only [txids, List.length_map, List.length_nil] at h1
+    omega
+  have hm := C14_merkle_eq_spec_list Pycoin.Hash.dsha256 (txids c blk.txs) hne
+  have hl : (txids c blk.txs).length = blk.txs.length := by simp [txids]
+  rw [hl] at hm
+  simp only [Block.checkMerkleHash, txHashes_eq c blk.txs (fun t ht => (hwf.txs t ht).1), hm, specRoot]
+  rfl
+
+theorem Block.stream_eq (blk : Block) (hwf : blk.WF) : Block.stream blk = .ok (Spec.Block.block blk) := by
+  have h1 := streamList_eq (fun t : Tx => t.stream) Spec.Wire.ser blk.txs (fun t ht => C07_ser_is_wire t (hwf.txs t ht).1)
+  simp [Block.stream, Block.streamTransactions, Block.streamHeader_eq _ hwf.hdr, txs_ne_nil hwf.nonempty,
+    Gen.Messages.block_stream_transactions_stream_count, streamStruct, tbl_I, streamLetter,
+    streamSatoshiInt_eq _ hwf.count, h1, Spec.Block.block]
+
+/-- C14.block_rt: a block with ≥ 1 transaction, all fields in range, whose header carries the merkle root of its
+transactions, streams to the wire format and parses back (whatever follows is left unread), for every coin class -/
+theorem C14_block_rt (c : Coin) (blk : Block) (hwf : blk.WF) (hroot : blk.hdr.merkleRoot = specRoot c blk.txs)
+    (rest : Bytes) :
+    Block.stream blk = .ok (Spec.Block.block blk) ∧
+    Block.parse c true true (Spec.Block.block blk ++ rest) = .ok (blk, rest) := by
+  refine ⟨Block.stream_eq blk hwf, ?_⟩
+  rw [Block.parse_stream_core c blk hwf _ rest true (Block.stream_eq blk hwf)]
+  simp [Block.setTxs, txs_ne_nil hwf.nonempty, checkMerkleHash_eq c blk hwf, hroot]
+
+/-- C14.bad_root_rejected: the same block with any other value in the header's merkle-root field is rejected with
+`BadMerkleRootError` (when parsed with the default `check_merkle_hash=True`) -/
+theorem C14_bad_root_rejected (c : Coin) (blk : Block) (hwf : blk.WF) (hroot : blk.hdr.merkleRoot ≠ specRoot c blk.txs)
+    (rest : Bytes) :
+    Block.parse c true true (Spec.Block.block blk ++ rest) = .error .badMerkleRootError := by
+  rw [Block.parse_stream_core c blk hwf _ rest true (Block.stream_eq blk hwf)]
+  simp [Block.setTxs, txs_ne_nil hwf.nonempty, checkMerkleHash_eq c blk hwf, Ne.symm hroot]
+
+/-- with `check_merkle_hash=False` the root is not looked at -/
+theorem C14_block_rt_nocheck (c : Coin) (blk : Block) (hwf : blk.WF) (rest : Bytes) :
+    Block.parse c true false (Spec.Block.block blk ++ rest) = .ok (blk, rest) := by
+  rw [Block.parse_stream_core c blk hwf _ rest false (Block.stream_eq blk hwf)]
+  simp [Block.setTxs, txs_ne_nil hwf.nonempty]
+
+end blocks
+
 /-! ## non-vacuity: the hypotheses are satisfiable, and the statements are exercised on real double-SHA256 (evaluated) -/
 
 example : NoEqualSiblings (fun x => x) (fun i => [UInt8.ofNat i]) 2 := by
@@ -262,5 +355,29 @@ private def isErr (r : Except MerkleBlock.Err (List Bytes)) : Bool :=
 #guard isErr (verify Pycoin.Hash.dsha256 5 (proof Pycoin.Hash.dsha256 leaf5 m5 5).2 ((proof Pycoin.Hash.dsha256 leaf5 m5 5).1 ++ [0])
   (root Pycoin.Hash.dsha256 leaf5 5))
 #guard merkle Pycoin.Hash.dsha256 ((List.range 5).map leaf5) matches .ok _
+
+-- a one-transaction block satisfying the hypotheses of C14_block_rt
+private def tx0 : Tx := ⟨1, [⟨List.replicate 32 0, 0xFFFFFFFF, [0x51], 0xFFFFFFFF, []⟩], [⟨50, [0x51]⟩], 0⟩
+private def blk0 : Block := ⟨⟨1, List.replicate 32 0, specRoot .btc [tx0], 0, 0x1d00ffff, 7⟩, [tx0]⟩
+
+private theorem tx0_wf : tx0.WF := by
+  refine ⟨by decide, by decide, by decide, by decide, ?_, ?_⟩
+  · intro t ht
+    simp [tx0] at ht
+    subst ht
+    exact ⟨by decide, by decide, by decide, by decide, by decide, by simp⟩
+  · intro o ho
+    simp [tx0] at ho
+    subst ho
+    exact ⟨by decide, by decide⟩
+
+example : blk0.WF ∧ blk0.hdr.merkleRoot = specRoot .btc blk0.txs := by
+  refine ⟨⟨⟨by decide, by decide, ?_, by decide, by decide, by decide⟩, by decide, by decide, ?_⟩, rfl⟩
+  · show (specRoot .btc [tx0]).length = 32
+    simp [specRoot, root, height, heightLoop, treeWidth, calcHash, txids, Tx.idDigest, Coin.singleSha, Gen.TxLimits.btc_singleSha, dsha256_length]
+  · intro t ht
+    simp [blk0] at ht
+    subst ht
+    exact ⟨tx0_wf, by decide⟩
 
 end Pycoin.C14
